@@ -15,7 +15,7 @@ EXTRACTED = ("ConstHash", "ConstSig")
 ALLOWED_AXIOMS = ()
 
 PRELUDE = """From Coq Require Import List String ZArith NArith.
-From DDS Require Import Base.Bytes L0_Hash.PyVal L1_Args.ArgCtx L3_Sig.Program L3_Sig.Sig L4_Eval.DdsEval L7_Graph.Structure L7_Graph.RunGraph.
+From DDS Require Import Base.Bytes L0_Hash.PyVal L1_Args.ArgCtx L2_Disc.MiniPy L3_Sig.Program L2_Disc.Visitors L3_Sig.Sig L4_Eval.DdsEval L7_Graph.Structure L7_Graph.RunGraph.
 Import ListNotations.
 """
 
@@ -144,7 +144,7 @@ def run(rep, tier, seed, proof_ok):
     exprs = []
     for r in good:
         job = r["job"]
-        term = P.fn_term(job["prog"], job["call"]["mod"], job["call"]["fn"])
+        term = "(discover " + P.mfn_term(job["prog"], job["call"]["mod"], job["call"]["fn"]) + ")"
         pos = "[" + "; ".join(V.to_coq(x) for x in job["call"].get("pos", [])) + "]"
         kw = "[" + "; ".join(f"({C.hexs(k)}, {V.to_coq(x)})" for k, x in job["call"].get("kw", [])) + "]"
         # committed paths before the evaluation (for loads resolved from the store)
